@@ -177,6 +177,15 @@ theorem registry_accesses_guarded :
 theorem thread_data_is_thread_local : Generated.threadDataThreadLocal = true := by decide
 theorem status_is_atomic : Generated.statusAtomic = true := by decide
 theorem sandbox_list_is_static : Generated.sandboxListStatic = true := by decide
+/-- `regDel` is ONE atomic step: the lookup of the instance in the live list and its removal happen
+inside the same UNIQUE guard (no window in which another thread's create/destroy can shift or
+reallocate the list between the two) -/
+theorem destroy_find_erase_atomic : Generated.destroyFindAndEraseInOneGuard = true := by decide
+/-- an instance is in the live list only while its backend memory exists: it is unlinked before the
+backend is torn down and linked after the backend was created (so `find` never returns an instance
+whose region is gone or may already belong to another thread's new sandbox) -/
+theorem live_list_within_backend_lifetime :
+    Generated.destroyUnlinksBeforeBackendTeardown = true ∧ Generated.createLinksAfterBackendCreate = true := by decide
 
 /-- non-vacuity: two threads, two instances, thread 1 creates/destroys while thread 0 looks up -/
 def exRegion (i : Nat) : Region := ⟨16, 0x6a0000000000 + i * 0x400000000⟩
